@@ -313,6 +313,9 @@ static void op_alloc(void) {
 }
 
 /* ------------------------------------------------------------------ free */
+/* let a helper thread perform the next plain mi_free (a free by a thread that does not own the page); the caller waits for it */
+static int vf_free_in_thread = 0;
+static void* vf_free_thread_main(void* p) { mi_free(p); return NULL; }
 static void op_free_slot(int s, int fop) {
   blk_t* b = &slots[s];
   if (fop == FR_free_size_aligned || fop == FR_free_aligned) { if (b->al == 0 || b->off != 0 || ((uintptr_t)b->p % b->al) != 0) fop = FR_free; }
@@ -323,7 +326,10 @@ static void op_free_slot(int s, int fop) {
   clear_block(s);
   if (cur_t >= 0 && cur_t < 16) vf_flight[cur_t] = p;
   switch (fop) {
-    case FR_free: mi_free(p); break;
+    case FR_free:
+      if (vf_free_in_thread) { vf_free_in_thread = 0; pthread_t th; if (pthread_create(&th, NULL, vf_free_thread_main, p) == 0) pthread_join(th, NULL); else mi_free(p); }
+      else mi_free(p);
+      break;
     case FR_free_size: mi_free_size(p, req); break;
     case FR_free_size_aligned: mi_free_size_aligned(p, req, al); break;
     case FR_free_aligned: mi_free_aligned(p, al); break;
